@@ -684,21 +684,22 @@ func (n *TxNotifier) RegisterConf(txid *chainhash.Hash, pkScript []byte,
 			"registration since rescan has finished, conf_id=%v",
 			ntfn.ConfRequest, ntfn.ConfID)
 
-		// The default notification we assigned above includes the
-		// block along with the rest of the details. However not all
-		// clients want the block, so we make a copy here w/o the block
-		// if needed so we can give clients only what they ask for.
-		confDetails := confSet.details
-		if !ntfn.includeBlock && confDetails != nil {
-			confDetailsCopy := *confDetails
-			confDetailsCopy.Block = nil
-
-			confDetails = &confDetailsCopy
-		}
-
 		// Deliver the details to the whole conf set where this ntfn
 		// lives in.
 		for _, subscriber := range confSet.ntfns {
+			// The details we cached include the block along with
+			// the rest of the details. However not all clients
+			// want the block, so we make a copy here w/o the block
+			// if needed so we can give each client only what it
+			// asked for.
+			confDetails := confSet.details
+			if !subscriber.includeBlock && confDetails != nil {
+				confDetailsCopy := *confDetails
+				confDetailsCopy.Block = nil
+
+				confDetails = &confDetailsCopy
+			}
+
 			err := n.dispatchConfDetails(subscriber, confDetails)
 			if err != nil {
 				return nil, err
